@@ -378,9 +378,10 @@ and the mutant's own ctest result recorded:
   CodeBINCLUDE seeks to offset + 1                                        -> VIOLATION   (ctest 201/201)
   ExpandEXITM does not cut the IF stack back                              -> VIOLATION   (ctest 201/201)
   ExpandIRPC drops the last character of strings longer than 3            -> VIOLATION   (ctest 201/201)
-  ExpandLine skips parameter number 12                                    -> see below
-  WHILE_OutProcessor queues the body although the condition is false      -> see below
-  INCLUDE inside REPT only read in the first iteration                    -> see below
+  ExpandLine skips parameter number 12                                    -> VIOLATION   (ctest 201/201)
+  INCLUDE inside REPT only read in the first iteration                    -> VIOLATION   (ctest 201/201)
+  WHILE_OutProcessor queues the body although the condition is false      -> not reported: equivalent (the
+      processor evaluates the condition again before the first line)                           (ctest 201/201)
   second keyword argument for the same parameter is ignored (first wins)  -> not reported: only reachable after
       asl has already reported "macro argument redefined"; such calls are indefinite for the property (ctest 201/201)
   MACRO_OutProcessor without KillCtrl                                     -> not reported: equivalent for the code
